@@ -436,7 +436,15 @@ def reproduce_api(ctx, rejects, cap=25):
         re_file = os.path.join(d, "re.000.ndjson")
         r = ctx.tlc("BattleTrace", env=dict(VERIF_TRACE=re_file, VERIF_MODE="C13"))
         if not r["rejects"]:
-            raise ToolError("rejection (%s) did not reproduce when the history was re-executed alone" % sig)
+            src = [(sh, i) for sh, i in rejects if trace_of(sh, i)[0] == tr]
+            payload = rerun_in_context(ctx, src[0][0], src[0][1], "C13", "BattleTrace", n, cfg="BattleTrace.cfg") if (src and n <= 4) else None
+            if payload is None and n > 4:
+                continue
+            if payload is None:
+                raise ToolError("rejection (%s) reproduced neither alone nor when the whole generation was repeated" % sig)
+            ctx.violation(sig + " [only after the preceding cases of the same process]",
+                          "history %s: reproduced by repeating the deterministic generation (seed %s), not when executed alone - state is carried over between simulators" % (hist_str(hist), payload["seed"]), payload)
+            continue
         re_tr = read_lines(re_file)
         bad = re_tr[r["rejects"][0] - 1]
         what = "history %s on M=%s: call #%d '%s' is not a behaviour of the specification; observed %s" % (
